@@ -7,6 +7,9 @@ VERIF = os.path.dirname(os.path.dirname(os.path.abspath(__file__)))
 
 # id -> (technique, level text, level note, design ref)   -- only checks that exist under mc/checks are claimed
 CHECKS = {
+    "C04": ("bounded exhaustive enumeration of bases x injection sites x injection kinds x strictness x entry forms (1 injection, thorough 2)",
+            "For the minimal and maximal instance of every type of both spec versions, every injection site found by walking the instance along the frozen model (top level, each embedded object, each registered extension, each hashes dictionary, each reference, bundle and observed-data members, extensions slots) x 14 injection kinds (x_/unknown property, custom_properties key, unregistered extension, extension-definition flavours, unknown and non-vocabulary hash algorithms, references to unregistered types and to names registered in another category, unregistered member types, unregistered top-level types with extension-definition flavours), each also nested in a bundle, x allow_custom x {constructor, parse(dict), parse(text), MemoryStore.add, FileSystemSink.add(dict|text)}, plus permissively pre-built sub-object instances given to strict and permissive parents and deep copies. Strict: refused; permissive: has_custom == (strict re-parse of the serialization is refused).",
+            "trusted: site enumeration from the frozen spec model; extension-definition extensions are judged only through the equivalence (library-documented choice)", "DESIGN.md §3 C04"),
     "C17": ("exhaustive single-fault enumeration (every slot x every wrong-kind value) and bounded enumeration of arbitrary JSON parser inputs",
             "Every minimal and maximal valid instance of every type of both spec versions x every slot (recursively through lists, embedded objects, extensions, containers) x 16 junk values of another JSON kind (incl. 600-level nesting that json.loads still decodes) x both allow_custom settings through parse(dict), parse(text), constructor, parse_observable, MemoryStore.add and FileSystemSink.add (thorough: pairs of replacements on minimal bases), plus every JSON object of depth <=2 over the key alphabet {type,id,objects,spec_version,extensions,x} with every registered type name and every wrong-kind type value, top-level scalars and malformed texts. Every call must terminate and return or raise STIXError/ValueError/TypeError; registries and stores must be unchanged after a failure.",
             "trusted: instances from the frozen spec model; deep nesting that only defeats the JSON writer of a store is treated as resource exhaustion (not asserted)", "DESIGN.md §3 C17"),
